@@ -51,6 +51,7 @@ type Contract struct {
 	AllocT      []string          // ... of these kinds (struct short names, "map", "chan", "cell")
 	TempKinds   []string          // temporaries K1, K2: objects of these kinds are allocated but do not escape (assumed, listed in the evidence)
 	SpawnMod    []ast.Expr        // what goroutines started by this function may modify (default: nothing)
+	SleepReq    []Clause          // sleep requires[label] e: must hold at every wait on the injected clock (After/Sleep) of the function; d is the duration
 	SpawnReq    []Clause          // spawn requires[label] e: must hold, in the spawning activation's state, at every go statement of the function
 	Observe     map[string]string // obligation-name suffix -> why a failure of it is outside the property (reported, not alarmed)
 	Devirt      map[string]string
@@ -159,7 +160,7 @@ var declKeywords = map[string]bool{"func": true, "extern": true, "field": true, 
 	"ghost": true, "axiom": true, "monitor": true, "lemma": true, "devirtall": true}
 var clauseKeywords = map[string]bool{"prop": true, "params": true, "results": true, "recv": true, "requires": true, "ensures": true,
 	"modifies": true, "loop": true, "on": true, "instantiate": true, "strings": true, "inline": true, "mode": true, "decreases": true,
-	"safety": true, "invariant": true, "protects": true, "self": true, "vars": true, "assumes": true, "replay": true, "allocates": true, "opaque": true, "ghostlocal": true, "devirt": true, "dispatch": true, "spawn": true, "temporaries": true, "rely": true, "observation": true, "select": true}
+	"safety": true, "invariant": true, "protects": true, "self": true, "vars": true, "assumes": true, "replay": true, "allocates": true, "opaque": true, "ghostlocal": true, "devirt": true, "dispatch": true, "spawn": true, "sleep": true, "temporaries": true, "rely": true, "observation": true, "select": true}
 
 // desugarSpec rewrites ==> and <==> (lowest precedence, right associative) into calls.
 func desugarSpec(s string) string {
@@ -715,6 +716,16 @@ func parseContractFile(path, pkgPath, pkgName string) (*ContractFile, error) {
 				}
 			case "temporaries":
 				cur.TempKinds = append(cur.TempKinds, fieldsComma(rest)...)
+			case "sleep":
+				if strings.HasPrefix(rest, "requires") {
+					c, err := mkClause(strings.TrimPrefix(rest, "requires"), rl.line)
+					if err != nil {
+						return nil, err
+					}
+					cur.SleepReq = append(cur.SleepReq, c)
+					continue
+				}
+				return nil, fmt.Errorf("%s:%d: sleep: only `sleep requires[l] e` is known", path, rl.line)
 			case "spawn":
 				if strings.HasPrefix(rest, "requires") {
 					c, err := mkClause(strings.TrimPrefix(rest, "requires"), rl.line)
